@@ -172,7 +172,15 @@ def queue_next_n(E):
     E.stubs[SFG + '._generate_next_n'] = gen_stub
     the_generator = SOpaque('generator', 'gen')
     iterated = []
-    log = OpaqueLog(E, returns={'__call__': lambda *a: the_generator})
+    # the application's generator factory is application code: it may fail when it is called, before any element exists
+    factory_fails = E.path.choice(2, 'generator-factory-raises') == 1
+    ferr = E.make_exc('RuntimeError', 'cannot open the source')
+
+    def call_factory(E_, o, m, a, k):
+        if factory_fails:
+            raise PyExc(ferr)
+        return the_generator
+    log = OpaqueLog(E, returns={'__call__': call_factory})
     E.builtins['iter'] = M.Builtin('iter', lambda v: (iterated.append(v), SOpaque('iterator', 'iteration'))[1])
     tasks = []
     E.create_task_hook = lambda E_, t, coro: tasks.append(t)
@@ -187,7 +195,18 @@ def queue_next_n(E):
         return None
     E.suspend_hook = on_suspend
     spec = LoopSpec(lambda ctx: [], None)
-    E.await_value(E.call(E.getattr(src, 'queue_next_n'), []))
+    try:
+        E.await_value(E.call(E.getattr(src, 'queue_next_n'), []))
+    except PyExc as e:
+        E.cover('escaped')
+        E.prove('queue_next_n:no_failure_of_application_code_escapes_the_feeder_task[it would leave the requester waiting for ever]', False)
+        return
+    if factory_fails:
+        E.cover('factory-failed')
+        E.prove('queue_next_n:a_generator_that_cannot_be_created_fails_the_stream_once', [c[1] for c in log.of(sub)] == ['on_error']
+                and log.of(sub)[0][2][0] is ferr)
+        E.prove('queue_next_n:and_nothing_is_generated', not asked and not src.attrs['_queue'].attrs['_queue'])
+        return
     E.cover('observed')
     q = src.attrs['_queue'].attrs['_queue']
     E.prove('queue_next_n:the_application_generator_is_started_exactly_once_and_that_one_is_iterated',
